@@ -32,6 +32,8 @@ DEFAULTS = {
     'vpath_tuple_mode': 'VSeparate', 'vroot_idx_off': -1, 'vroot_idx_absent': -1,
     'path_segment_safe': "~!$&'()*+,;=:@", 'lru_split_path_info': 1000, 'lru_traversal_path_info': 1000,
     'lru_join_path_tuple': 1000, 'vh_root_key': 'HTTP_X_VHM_ROOT',
+    'ret_keys': ['context', 'view_name', 'subpath', 'traversed', 'virtual_root', 'virtual_root_path', 'root'],
+    'router_root_key': 'root', 'router_updates_attrs': True,
 }
 
 KEYS = ['context', 'view_name', 'subpath', 'traversed', 'virtual_root', 'virtual_root_path', 'root']
@@ -112,6 +114,10 @@ def retdict(d):
     return 'mkRet ' + ' '.join(parts)
 
 
+def dict_key_order(d):
+    return [k.value for k in d.keys]
+
+
 HOLE = ast.Constant(value='<<fact>>')
 
 
@@ -176,6 +182,11 @@ def extract(src_root):
         for name, r in zip(['ret_selector', 'ret_noitem', 'ret_keyerror', 'ret_final'], rets):
             try:
                 vals[name] = retdict(r.value)
+                order = dict_key_order(r.value)
+                if name == 'ret_selector':
+                    vals['ret_keys'] = order
+                elif order != vals['ret_keys']:
+                    raise Unknown('key order differs between the returned dictionaries')
                 r.value.values = [HOLE for _ in r.value.values]
             except Unknown as e:
                 problems.append('fact %s unrecognised: %s' % (name, e))
@@ -244,7 +255,51 @@ def extract(src_root):
         skeleton = F.shape(call2)
     except Exception as e:
         problems.append('cannot hash the skeleton of __call__: %r' % e)
-    return vals, problems, skeleton
+    router_skel = None
+    try:
+        router_skel = extract_router(src_root, vals)
+    except Exception as e:
+        problems.append('Router.handle_request traversal part unrecognised: %s' % e)
+    return vals, problems, {'call': skeleton, 'router': router_skel}
+
+
+def extract_router(src_root, vals):
+    """Router.handle_request: the statements from `root = root_factory(request)` to
+    `attrs.update(tdict)` -> shape hash of that slice; facts: the key of `attrs[KEY] = root`,
+    and that the dictionary is copied with attrs.update(tdict) where attrs = request.__dict__."""
+    m = F.Module(src_root, 'pyramid/router.py')
+    fn = m.find('Router.handle_request')
+    if fn is None:
+        raise Unknown('Router.handle_request not found')
+    body = fn.body
+    txt = [ast.unparse(st) for st in body]
+    if 'attrs = request.__dict__' not in txt:
+        raise Unknown('attrs = request.__dict__ not found')
+    try:
+        a = txt.index('root = root_factory(request)')
+        b = txt.index('attrs.update(tdict)')
+    except ValueError:
+        raise Unknown('root = root_factory(request) ... attrs.update(tdict) not found at the top level')
+    if not a < b:
+        raise Unknown('statement order')
+    sl = body[a:b + 1]
+    key = None
+    for st in sl:
+        if isinstance(st, ast.Assign) and len(st.targets) == 1 and isinstance(st.targets[0], ast.Subscript) \
+                and ast.unparse(st.targets[0].value) == 'attrs' and ast.unparse(st.value) == 'root' \
+                and isinstance(st.targets[0].slice, ast.Constant) and isinstance(st.targets[0].slice.value, str):
+            key = st.targets[0].slice.value
+    if key is None:
+        raise Unknown("attrs['root'] = root not found")
+    if 'tdict = traverser(request)' not in [ast.unparse(st) for st in sl]:
+        raise Unknown('tdict = traverser(request) not found')
+    for st in body[a:]:
+        for n in ast.walk(st):
+            if isinstance(n, ast.Delete) or (isinstance(n, ast.Call) and ast.unparse(n.func) in ('attrs.pop', 'attrs.clear')):
+                raise Unknown('attrs entries are removed after traversal')
+    vals['router_root_key'] = key
+    vals['router_updates_attrs'] = True
+    return F.shape(ast.Module(body=sl, type_ignores=[]))
 
 
 def _str(v):
@@ -266,6 +321,9 @@ def coq(vals):
     for k in ('lru_split_path_info', 'lru_traversal_path_info', 'lru_join_path_tuple'):
         out.append('Definition %s : nat := %d.\n' % (k, vals[k]))
     out.append('Definition vh_root_key : text := %s.\n' % F.coq_text(vals['vh_root_key']))
+    out.append('Definition ret_keys : list text := %s.\n' % F.coq_texts(vals['ret_keys']))
+    out.append('Definition router_root_key : text := %s.\n' % F.coq_text(vals['router_root_key']))
+    out.append('Definition router_updates_attrs : bool := %s.\n' % F.coq_bool(vals['router_updates_attrs']))
     return ''.join(out)
 
 
@@ -275,11 +333,19 @@ def facts(src_root):
     vals, p2, skeleton = extract(src_root)
     problems += p2
     with open(os.path.join(HERE, 'skeleton.json')) as f:
-        want = json.load(f)['ResourceTreeTraverser.__call__']
-    summary['pyramid/traversal.py:ResourceTreeTraverser.__call__[skeleton]'] = skeleton
-    if skeleton is not None and skeleton != want:
+        wants = json.load(f)
+    skeleton = skeleton or {}
+    want = wants['ResourceTreeTraverser.__call__']
+    summary['pyramid/traversal.py:ResourceTreeTraverser.__call__[skeleton]'] = skeleton.get('call')
+    if skeleton.get('call') is not None and skeleton['call'] != want:
         problems.append('shape pin pyramid/traversal.py:ResourceTreeTraverser.__call__ (skeleton with the '
                         'translated expressions blanked) changed (%s -> %s): the hand-written loop follows '
-                        'the previous text' % (want, skeleton))
+                        'the previous text' % (want, skeleton['call']))
+    wantr = wants.get('Router.handle_request[traversal]')
+    summary['pyramid/router.py:Router.handle_request[traversal part]'] = skeleton.get('router')
+    if skeleton.get('router') is not None and skeleton['router'] != wantr:
+        problems.append('shape pin pyramid/router.py:Router.handle_request (statements root = root_factory(request) '
+                        '.. attrs.update(tdict)) changed (%s -> %s): the model of the attribute copy follows the '
+                        'previous text' % (wantr, skeleton['router']))
     summary.update({k: vals[k] for k in vals})
     return {'coq': coq(vals), 'summary': summary, 'problems': problems}
